@@ -126,7 +126,9 @@ def check(run: Run) -> None:
 
     # ---------------- R3 patch-back
     fx_fn = m.find_func("fixup_ast_from_modifications", in_module=mod)
-    fixers = [c for c in m.classes.values() if c.parent_func is fx_fn and "visit_Call" in c.methods]
+    from ..lib import used_visitor
+
+    fixers = [c for c in [used_visitor(m, ctx, fx_fn)] if "visit_Call" in c.methods]
     if len(fixers) != 1:
         raise AnalysisError("fixup_ast_from_modifications no longer contains one visitor with visit_Call")
     vc = fixers[0].methods["visit_Call"]
